@@ -7,15 +7,12 @@ import (
 	"time"
 
 	dtlsserver "github.com/plgd-dev/go-coap/v3/dtls/server"
-	"github.com/plgd-dev/go-coap/v3/message/pool"
-	"github.com/plgd-dev/go-coap/v3/net/responsewriter"
 	"github.com/plgd-dev/go-coap/v3/options"
 	tcpclient "github.com/plgd-dev/go-coap/v3/tcp/client"
 	tcpserver "github.com/plgd-dev/go-coap/v3/tcp/server"
 	udpclient "github.com/plgd-dev/go-coap/v3/udp/client"
 	udpserver "github.com/plgd-dev/go-coap/v3/udp/server"
 
-	"verifharness/sim"
 	"verifharness/vr"
 )
 
@@ -94,37 +91,19 @@ func groups(rec *vr.Rec, n int, seed int64) {
 				}
 			}
 			if udpFactory != nil {
-				d := &udpDriver{s: sim.NewMemSession(), mid: 1000}
 				lo := time.Now()
 				mon := udpFactory()
 				hi := time.Now()
-				d.cc = sim.NewUDPConn(d.s, sim.UDPOpts{
-					Handler:     func(w *responsewriter.ResponseWriter[*udpclient.Conn], r *pool.Message) { d.handled.Add(1) },
-					ConnOptions: []udpclient.Option{udpclient.WithInactivityMonitor(mon)},
-					Mutate:      func(c *udpclient.Config) { c.GetMID = func() int32 { return 40000 + 0xffff/2 } },
-				})
+				d := mkUDPDriver(mon)
 				byConn.Store(d.cc, d)
 				members = append(members, member{d, lo, hi, ev})
 			} else {
-				d := &tcpDriver{sc: sim.NewScriptConn()}
-				var lo, hi time.Time
-				cc, err := sim.NewTCPConn(d.sc, sim.TCPOpts{
-					Handler: func(w *responsewriter.ResponseWriter[*tcpclient.Conn], r *pool.Message) { d.handled.Add(1) },
-					Mutate: func(cfg *tcpclient.Config) {
-						cfg.CreateInactivityMonitor = func() tcpclient.InactivityMonitor {
-							lo = time.Now()
-							m := tcpFactory()
-							hi = time.Now()
-							return m
-						}
-					},
-				})
+				d, lo, hi, err := mkTCPDriver(func(*tcpclient.Config) func() tcpclient.InactivityMonitor { return tcpFactory })
 				if err != nil {
 					rec.Violation("C18/harness/tcp-client", err.Error(), nil)
 					return
 				}
-				d.cc = cc
-				byConn.Store(cc, d)
+				byConn.Store(d.cc, d)
 				members = append(members, member{d, lo, hi, ev})
 			}
 		}
